@@ -128,13 +128,17 @@ def op_gen_noise(job):
         g = CategoricalClassification()
         X = g.generate_data(it['nf'], it['ns'], cardinality=it['card'], ensure_rep=True, seed=it['seed'])
         y = (np.sum(X, axis=1) > np.median(np.sum(X, axis=1))).astype(int) if it.get('classes', 2) == 2 else (np.sum(X, axis=1) % it['classes']).astype(int)
-        X0 = X.copy()
+        if it.get('labels') is not None:
+            y = np.array([it['labels'][i % len(it['labels'])] for i in range(it['ns'])])
+        Xin = X.astype(float) if it.get('float') else X          # the very array handed to the generator
+        X = Xin
+        X0 = Xin.copy()
         np.random.seed(it['seed'] + 1)
         try:
             if it['type'] == 'categorical':
-                Xn = g.generate_noise(X, y, p=it['p'], type='categorical')
+                Xn = g.generate_noise(Xin, y, p=it['p'], type='categorical')
             else:
-                Xn = g.generate_noise(X.astype(float) if it.get('float') else X, y, p=it['p'], type='missing', missing_val=it['missing_val'])
+                Xn = g.generate_noise(Xin, y, p=it['p'], type='missing', missing_val=it['missing_val'])
         except Exception as e:  # noqa: BLE001
             out.append({'error': repr(e)[:300]})
             continue
